@@ -6,7 +6,7 @@ set -u
 P="$1"; V="$2"; shift 2; CHECKS="${*:-$P}"
 SRC="/tmp/seed/$P/_seeded/$V"
 # second wave: /tmp/seed/Dxx/_seeded/{a,b} are stored as <Cxx>-c and <Cxx>-d
-case "$V" in c) SRC="/tmp/seed/D${P#C}/_seeded/a";; d) SRC="/tmp/seed/D${P#C}/_seeded/b";; e) SRC="/tmp/seed/E${P#C}/_seeded/a";; f) SRC="/tmp/seed/E${P#C}/_seeded/b";; g) SRC="/tmp/seed/F${P#C}/_seeded/a";; h) SRC="/tmp/seed/F${P#C}/_seeded/b";; i) SRC="/tmp/seed/G${P#C}/_seeded/a";; j) SRC="/tmp/seed/G${P#C}/_seeded/b";; k) SRC="/tmp/seed/H${P#C}/_seeded/a";; esac
+case "$V" in c) SRC="/tmp/seed/D${P#C}/_seeded/a";; d) SRC="/tmp/seed/D${P#C}/_seeded/b";; e) SRC="/tmp/seed/E${P#C}/_seeded/a";; f) SRC="/tmp/seed/E${P#C}/_seeded/b";; g) SRC="/tmp/seed/F${P#C}/_seeded/a";; h) SRC="/tmp/seed/F${P#C}/_seeded/b";; i) SRC="/tmp/seed/G${P#C}/_seeded/a";; j) SRC="/tmp/seed/G${P#C}/_seeded/b";; k) SRC="/tmp/seed/H${P#C}/_seeded/a";; l) SRC="/tmp/seed/J${P#C}/_seeded/a";; esac
 DST="/verif/seeded/$P-$V"
 [ -f "$SRC/patch.diff" ] || { echo "no $SRC/patch.diff"; exit 2; }
 mkdir -p "$DST"; cp "$SRC/patch.diff" "$SRC/demo.py" "$SRC/meta.json" "$DST/" 2>/dev/null
